@@ -156,7 +156,7 @@ impl Monitor for C06 {
 
     fn run_case(&mut self, k: u64, ctx: &mut Ctx) {
         let mut r = Rng::derive(self.seed, 0x0601, k, 0);
-        let max_plain = self.tier.pick(30_000, 200_000);
+        let max_plain = self.tier.pick(100_000, 300_000);
         let s = match draw_stream(&mut r, max_plain, ctx) {
             Some(s) => s,
             None => {
